@@ -61,7 +61,7 @@ func c18Cases(quick bool) []EnumCase {
 								out = append(out, mkCase(k.name(), k))
 								k.SelfQueue = false
 							}
-							if text && wills >= 1 && wills <= 2 && at == "before-grant" && cause == "client-close" {
+							if text && wills >= 1 && at == "before-grant" && cause == "client-close" {
 								k.Admin = true
 								out = append(out, mkCase(k.name(), k))
 								k.Admin = false
